@@ -121,6 +121,7 @@ def run_results(ctx, want: str):
             return out
 
         results = scen.parallel(gens, one, jobs=12)
+    k2_spec_vs_pydantic(run, results)
     mp_cache = {}
     for rows in results:
         for kind, g, op, plan, r in rows:
@@ -154,9 +155,42 @@ def run_results(ctx, want: str):
     return totals
 
 
+def nested_subtype_spread(g):
+    """F30: a named fragment on an ABSTRACT type contains (at its top level, possibly through further
+    spreads) a spread of a fragment on a different type that is a sub type of it.  At an abstract position
+    such nested spreads are neither unpacked into the base class nor turned into a variant class."""
+    cached = getattr(g, "_f30", None)
+    if cached is not None:
+        return cached
+    from graphql import GraphQLInterfaceType, GraphQLUnionType
+    S = g.schema
+    frags = {d.name.value: d for d in g.doc.definitions if isinstance(d, FragmentDefinitionNode)}
+    out = False
+    for f in frags.values():
+        t = S.type_map.get(f.type_condition.name.value)
+        if not isinstance(t, (GraphQLInterfaceType, GraphQLUnionType)):
+            continue
+        seen, todo = set(), [f]
+        while todo and not out:
+            cur = todo.pop()
+            for sel in cur.selection_set.selections:
+                if isinstance(sel, FragmentSpreadNode) and sel.name.value not in seen:
+                    seen.add(sel.name.value)
+                    sub = frags[sel.name.value]
+                    st = S.type_map.get(sub.type_condition.name.value)
+                    if st is not t and st is not None and S.is_sub_type(t, st):
+                        out = True
+                    elif st is t:
+                        todo.append(sub)
+    g._f30 = out
+    return out
+
+
 def finding_class(g, mp, opname, path):
     if in_merge_class(mp, opname, path or []):
         return "F27-unmerged-composite-field"
+    if nested_subtype_spread(g):
+        return "F30-subtype-spread-inside-abstract-fragment"
     if "cond_fragment" in g.sc.features:
         return "F3-conditional-fragment"
     if "foreign_cond" in g.sc.features:
@@ -262,3 +296,103 @@ def check_c05(run, g, opname, mp, r, rep):
         run.dist("rejected_with_other_exception", o["exc"])
     if len(run.samples) < 4:
         run.sample({"operation": opname, "response": r.get("data"), "corruptions_tried": c["kinds"]})
+
+
+def k2_spec_vs_pydantic(run, results):
+    """K2: Py/Pydantic.v `accepts` on the MODEL's classes vs the verdict of the real generated client
+    (real pydantic on the real classes) for every conformant and corrupted payload of this run."""
+    from graphql import FragmentDefinitionNode
+
+    from .. import model
+    from ..canon import encode
+    from ..sexp import Sym, json_sx
+    from .k1_results import FUEL
+
+    cmds, meta = [], []
+    for rows in results:
+        by_op = {}
+        g = None
+        for kind, g, op, plan, r in rows:
+            if kind != "call" or r.get("exec_errors") or (r.get("exc") and r["exc"][0].startswith("args:")):
+                continue
+            if r.get("data") is None:
+                continue
+            ent = by_op.setdefault(op.name.value, (op, [], {}))
+            lst = ent[1]
+            if "q" not in ent[2] and (r.get("request") or {}).get("query"):
+                ent[2]["q"] = r["request"]["query"]
+            real_ok = not r.get("exc")
+            if r.get("exc") and r["exc"][0] != "ValidationError":
+                continue
+            exposed = not any("not exposed" in p.get("what", "") for p in (r.get("obs") or {}).get("problems", []))
+            lst.append((r["data"], real_ok, "conformant", exposed if (real_ok and r.get("obs") is not None) else None))
+            for v in (r.get("corruptions") or {}).get("verdicts", []):
+                lst.append((v["value"], v["accepted"], v["kind"]))
+        if g is None or not by_op:
+            continue
+        cfg = g.res.get("config", {})
+        frs = [d for d in g.doc.definitions if isinstance(d, FragmentDefinitionNode)]
+        C = [cfg.get("convert_to_snake_case", True), encode.scalars_cfg(cfg)]
+        es, ef = encode.schema(g.schema), [encode.frag(f) for f in frs]
+        for name, (op, lst, sent) in by_op.items():
+            cmds.append([Sym("validate"), FUEL, C, es, ef, encode.operation(op), [json_sx(p[0]) for p in lst]])
+            meta.append((g, name, lst))
+            if sent.get("q"):
+                # conformance is judged against the document the client SENT (automatic __typename included)
+                from graphql import OperationDefinitionNode, parse
+                sdoc = parse(sent["q"])
+                sop = next(d for d in sdoc.definitions if isinstance(d, OperationDefinitionNode))
+                sfr = [encode.frag(d) for d in sdoc.definitions if isinstance(d, FragmentDefinitionNode)]
+                cmds.append([Sym("conf"), FUEL, es, sfr, encode.operation(sop), [json_sx(p[0]) for p in lst]])
+                meta.append((g, name, None, lst))
+    if not cmds:
+        return
+    res = model.batch("C01", cmds, chunk=8)
+    bad = 0
+    bad_conf = 0
+    for m, r in zip(meta, res):
+        if len(m) == 4:
+            g, name, _none, lst = m
+            if r[0] != "ok":
+                run.dist("k2", "exec-spec-error")
+                continue
+            for row, mv in zip(lst, r[1]):
+                payload, real_ok, kind = row[:3]
+                want = kind == "conformant"
+                run.dist("k2_exec", f"{kind}:{'conf' if mv == 't' else 'nonconf'}")
+                if (mv == "t") != want:
+                    bad_conf += 1
+                    if bad_conf <= 3:
+                        run.violation(
+                            f"K2: Gql/Exec.v conf_op says {'conformant' if mv == 't' else 'not conformant'} for a "
+                            f"{kind} payload of {name} (graphql-core produced the conformant one)",
+                            {"seed": g.sc.seed, "schema": g.sc.sdl, "queries": g.sc.queries, "operation": name,
+                             "payload": payload, "kind": kind}, found_input=False)
+            continue
+        g, name, lst = m
+        if r[0] != "ok":
+            run.dist("k2", "model-error")
+            continue
+        for row, mv, cv in zip(lst, r[1], r[2]):
+            payload, real_ok, kind = row[:3]
+            if len(row) > 3 and row[3] is not None:
+                run.dist("k2_covers", "exposed" if row[3] else "key-dropped")
+                if (cv == "t") != row[3]:
+                    bad += 1
+                    if bad <= 3:
+                        run.violation(f"K2: Py/Pydantic.v covers={cv} but the real object "
+                                      f"{'exposes' if row[3] else 'drops'} a response key ({name})",
+                                      {"seed": g.sc.seed, "schema": g.sc.sdl, "queries": g.sc.queries,
+                                       "operation": name, "payload": payload}, found_input=False)
+            run.dist("k2", f"{kind}:{'accept' if real_ok else 'reject'}")
+            if (mv == "t") != real_ok:
+                bad += 1
+                if bad <= 3:
+                    run.violation(
+                        f"K2: Py/Pydantic.v says {'accept' if mv == 't' else 'reject'} but the real generated "
+                        f"model {'accepted' if real_ok else 'rejected'} a {kind} payload of {name}",
+                        {"seed": g.sc.seed, "schema": g.sc.sdl, "queries": g.sc.queries, "operation": name,
+                         "payload": payload, "model_accepts": mv == "t", "real_accepts": real_ok},
+                        found_input=False)
+    run.extra["k2_disagreements"] = bad
+    run.extra["k2_exec_spec_disagreements"] = bad_conf
